@@ -36,7 +36,7 @@ def gen_cases(ctx: Ctx, n_random: int, ops=None, tag='c06', weights=None, auth=F
     return cases
 
 
-CF_OPS = ['TRUE', 'FALSE', 'PUSH1', 'RETURN', 'RETURN', 'IF', 'IF_ELSE', 'TRY_EXCEPT', 'TRY_EXCEPT', 'LOOP', 'DEF', 'CALL', 'CALL', 'EVAL',
+CF_OPS = ['RECTRY', 'TRUE', 'FALSE', 'PUSH1', 'RETURN', 'RETURN', 'IF', 'IF_ELSE', 'TRY_EXCEPT', 'TRY_EXCEPT', 'LOOP', 'DEF', 'CALL', 'CALL', 'EVAL',
           'VERIFY', 'POP0', 'DEPTH', 'ADD_INTS', 'MERKLEVAL', 'TAPROOT', 'WRITE_CACHE', 'READ_CACHE', 'DUP', 'NOP']
 
 
